@@ -16,7 +16,7 @@ import (
 	mintertypes "github.com/chain4energy/c4e-chain/x/cfeminter/types"
 	sigkeeper "github.com/chain4energy/c4e-chain/x/cfesignature/keeper"
 	sigtypes "github.com/chain4energy/c4e-chain/x/cfesignature/types"
-	"github.com/cosmos/cosmos-sdk/simapp"
+	"github.com/cosmos/cosmos-sdk/x/crisis"
 	sdk "github.com/cosmos/cosmos-sdk/types"
 	abci "github.com/tendermint/tendermint/abci/types"
 	"github.com/tendermint/tendermint/libs/log"
@@ -80,13 +80,30 @@ type Chain struct {
 
 var appNewMu sync.Mutex
 
+// NodeOpts are settings an operator chooses per node; they must not influence what the node computes.
+type NodeOpts struct {
+	SkipGenesisInvariants bool `json:"skip_genesis_invariants,omitempty"` // --x-crisis-skip-assert-invariants
+	InvCheckPeriod        uint `json:"inv_check_period,omitempty"`        // --inv-check-period
+}
+
+type nodeAppOpts struct{ o NodeOpts }
+
+func (n nodeAppOpts) Get(key string) interface{} {
+	if key == crisis.FlagSkipGenesisInvariants {
+		return n.o.SkipGenesisInvariants
+	}
+	return nil
+}
+
 // NewChain builds a real app over db (a restart when db already holds committed state).
-func NewChain(db dbm.DB, bank *BankFaultCtl) *Chain {
+func NewChain(db dbm.DB, bank *BankFaultCtl) *Chain { return NewChainWith(db, bank, NodeOpts{}) }
+
+func NewChainWith(db dbm.DB, bank *BankFaultCtl, no NodeOpts) *Chain {
 	appNewMu.Lock()
 	defer appNewMu.Unlock()
 	installBankHook(bank)
 	defer installBankHook(nil)
-	a := c4eapp.New(log.NewNopLogger(), db, nil, true, map[int64]bool{}, "/nonexistent-verif-home", 0, Enc(), simapp.EmptyAppOptions{})
+	a := c4eapp.New(log.NewNopLogger(), db, nil, true, map[int64]bool{}, "/nonexistent-verif-home", no.InvCheckPeriod, Enc(), nodeAppOpts{no})
 	c := &Chain{App: a, DB: db, Bank: bank}
 	c.Height = a.LastBlockHeight()
 	return c
